@@ -217,6 +217,12 @@ def o_sec_roundtrip(case):
         got = key.sec(is_compressed=flag)
         if got != ref or (flag == comp and key.sec() != ref):
             _bad("sec:encode!=ref", "sec(compressed=%r) of (%#x, %#x) = %s, reference %s" % (flag, x, y, got.hex(), ref.hex()))
+        # the text form of the SEC as the key itself writes it (with the network's own tag, with or without a colon) read back
+        t = key.sec_as_hex(is_compressed=flag)
+        back = net.parse.sec(t)
+        if back is None or tuple(back.public_pair()) != (x, y) or bool(back.is_compressed()) != flag:
+            _bad("sec:own-text-not-read-back", "%s parse.sec(%r) = %r (pair %s compressed=%s expected)" % (
+                case["net"], t, None if back is None else (tuple(back.public_pair()), back.is_compressed()), (x, y), flag))
         for how, mk in (("keys.public", net.keys.public), ("Key.from_sec", type(key).from_sec)):
             k2 = mk(ref)
             if tuple(k2.public_pair()) != (x, y):
